@@ -61,17 +61,47 @@ def json_outcome(raw):
     return "(Ok %s)" % t if len(t) < 20000 else None
 
 
+OPS = ("verify", "decrypt", "unwrapKey", "deriveKey")
+
+
 def c_key(k):
     crv = k.curve_name if k.key_type in ("EC", "OKP") else ""
-    return "{| k_kty := %s; k_crv := %s; k_kid := %s; k_use := %s |}" % (
-        c_string(k.key_type), c_string(crv), c_pv(k.kid), c_pv(k.get("use")))
+    raw = k.raw_value if k.key_type == "oct" else b""
+    opfail = [op for op in OPS if call(k.get_op_key, op)[0] == "err"]
+    return ("{| k_kty := %s; k_crv := %s; k_kid := %s; k_use := %s; k_raw := %s; k_private := %s; k_opfail := %s |}" % (
+        c_string(k.key_type), c_string(crv), c_pv(k.kid), c_pv(k.get("use")), c_hex(raw), c_bool(k.is_private), c_strlist(opfail)))
+
+
+def c_keyobj(k):
+    from joserfc.jwk import KeySet
+    if isinstance(k, KeySet):
+        return "(AKeySet %s)" % c_list([c_key(x) for x in k.keys])
+    return "(AKey %s)" % c_key(k)
 
 
 def c_keyarg(name):
-    k = S.keys()[name]
-    if name.startswith("set:"):
-        return "(AKeySet %s)" % c_list([c_key(x) for x in k.keys])
-    return "(AKey %s)" % c_key(k)
+    """the key part of a key name ('+s:<sender>' removed)"""
+    name = name.split("+s:", 1)[0]
+    if name.startswith("call:"):
+        what = name[5:]
+        if what in ("str", "bytes", "emptystr"):
+            from joserfc.jwk import OctKey
+            val = {"str": "secret-secret-secret-secret-1234", "bytes": b"0123456789abcdef", "emptystr": ""}[what]
+            return "(ACall (AText %s))" % c_key(OctKey.import_key(val))
+        if what in ("none", "int", "dict", "list"):
+            return "(ACall AOther)"
+        return "(ACall %s)" % c_keyobj(S.keys()[what])
+    return c_keyobj(S.keys()[name])
+
+
+def c_sender(name):
+    from joserfc.jwk import KeySet
+    if "+s:" not in name:
+        return "SNone"
+    k = S.keys()[name.split("+s:", 1)[1]]
+    if isinstance(k, KeySet):
+        return "(SSet %s)" % c_list([c_key(x) for x in k.keys])
+    return "(SKey %s)" % c_key(k)
 
 
 def c_cinput(v):
@@ -189,7 +219,7 @@ def function_cases(ctx, dist):
     # ---- header handling of the registries
     pool = header_pool(ctx)
     if ctx.quick:
-        pool = pool[:40] + rng.sample(pool[40:], min(len(pool) - 40, 360))
+        pool = pool[:40] + rng.sample(pool[40:], min(len(pool) - 40, 300))
     jws_all, jwe_all = S.JWS_ALGS, S.JWE_ALL
     reg_jws = {(False, True): jws.JWSRegistry(), (False, False): jws.JWSRegistry(strict_check_header=False),
                (True, True): R7797(), (True, False): R7797(strict_check_header=False)}
@@ -278,6 +308,37 @@ def function_cases(ctx, dist):
         k = OctKey.import_key({"kty": "oct", "k": "AAAA", **({"use": use} if use else {})})
         for u in ("sig", "enc"):
             add("FCheckUse %s %s %s" % (c_key(k), c_string(u), c_res(call(k.check_use, u), c_unit)), ("FCheckUse", use, u))
+    # ---- guess_key with Key / KeySet / callable / text / other, kid of every JSON type ; sender keys with skid
+    from joserfc.jwk import guess_key
+    from joserfc.jwe import _guess_sender_key
+
+    class Obj:
+        def __init__(self, h):
+            self.h = h
+
+        def headers(self):
+            return self.h
+
+        def set_kid(self, kid):
+            pass
+    kidlen = lambda k: c_N(len(k.kid) if isinstance(k.kid, str) else 0)
+    kid_values = S.KEY_NAMES[:6] + ["nope", ""] + [x for x in S.SHAPES if renderable(x)]
+    for name in S.KEY_NAMES[:4] + S.SET_NAMES + S.CALLABLES:
+        for kid in (kid_values if name.startswith(("set:", "call:set")) else kid_values[:3]):
+            h = {"alg": "HS256", "kid": kid} if kid != "nope" or rng.random() < .5 else {"alg": "HS256"}
+            karg, _ = S.resolve_key(name)
+            r = call(guess_key, karg, Obj(h))
+            add("FGuessKey %s %s %s" % (c_keyarg(name), c_pv(h), c_res(r, kidlen)), ("FGuessKey", name, kid))
+    for sn in ("ec256b", "rsa", "set:all", "set:empty", "set:nokid2", "set:oct16"):
+        for skid in kid_values:
+            h = {"alg": "ECDH-1PU", "skid": skid} if skid != "nope" or rng.random() < .5 else {"alg": "ECDH-1PU"}
+            sk = S.keys()[sn]
+            if not sk:
+                r = ("ok", None)
+            else:
+                r = call(_guess_sender_key, Obj(h), sk)
+            add("FGuessSender %s %s %s" % (c_sender("x+s:" + sn), c_pv(h), c_res(r, lambda k: c_N(999) if k is None else kidlen(k))),
+                ("FGuessSender", sn, skid))
     return cases, meta
 
 
@@ -314,7 +375,7 @@ def entry_cases(ctx, calls, dist):
     rng = ctx.rng
     cases, meta = [], []
     eid = {"jws.deserialize_compact": 0, "rfc7797.deserialize_compact": 1, "jwt.decode/jws": 2}
-    cand = [c for c in calls if c[0] in eid and len(c[1]) < 3000]
+    cand = [c for c in calls if c[0] in eid and len(c[1]) < 3000 and "+s:" not in c[2]]
     rng.shuffle(cand)
     per_tag = collections.Counter()
     picked = []
@@ -323,7 +384,7 @@ def entry_cases(ctx, calls, dist):
         if per_tag[c[4]] < cap:
             per_tag[c[4]] += 1
             picked.append(c)
-    picked = picked[: ctx.scale(2000, 20000)]
+    picked = picked[: ctx.scale(1400, 20000)]
     with VerifyRecorder() as rec:
         for (entry, value, keyname, reg, tag) in picked:
             del rec.log[:]
@@ -360,6 +421,279 @@ def entry_cases(ctx, calls, dist):
             cases.append(term); meta.append(("EJws", entry, keyname, reg, tag, S.enc_value(value)))
             dist["entry:" + entry] = dist.get("entry:" + entry, 0) + 1
             ctx.note_case(("EJws", entry, keyname, reg, repr(value)[:300]))
+    return cases, meta
+
+
+# ---------------------------------------------------------------------------
+# primitives: recorded results (for the JWE end-to-end correspondence) and observed classes
+# ---------------------------------------------------------------------------
+def raw_inflate(s):
+    """what zlib does below DeflateZipModel.decompress (before the zlib.error mapping)"""
+    import zlib
+    from joserfc.rfc7518 import jwe_zips
+    d = zlib.decompressobj() if s.startswith(jwe_zips.GZIP_HEAD) else zlib.decompressobj(-zlib.MAX_WBITS)
+    try:
+        v = d.decompress(s, jwe_zips.MAX_SIZE + 1)
+    except zlib.error as e:
+        return ("err", e)
+    if len(v) > jwe_zips.MAX_SIZE or d.unconsumed_tail:
+        from joserfc.errors import ExceededSizeError
+        return ("err", ExceededSizeError())
+    return ("ok", v)
+
+
+class PrimRecorder:
+    """wraps the places where joserfc hands over to json / pyca / zlib.  calls[name] = results of this
+    entry call (reset by the caller), seen[name] = exception classes observed over the whole run"""
+    NAMES = ("json.loads", "alg.verify", "enc.decrypt", "zlib", "rsa.decrypt", "aes_key_unwrap", "gcm.unwrap", "pbkdf2", "import_epk",
+             "ecdh", "concat_kdf")
+
+    def __init__(self):
+        self.calls = {}
+        self.seen = {n: set() for n in self.NAMES}
+        self.undo = []
+
+    def reset(self):
+        self.calls = {}
+
+    def rec(self, name, r, key=None):
+        self.calls.setdefault(key or name, []).append(r)
+        if r[0] == "err":
+            self.seen[name].add(exn_class(r[1]))
+
+    def patch(self, obj, attr, new):
+        had = attr in getattr(obj, "__dict__", {})
+        old = obj.__dict__.get(attr) if had else None
+        setattr(obj, attr, new)
+        self.undo.append((obj, attr, had, old))
+
+    def __enter__(self):
+        import joserfc.util, joserfc.jwt, json as _json
+        from joserfc import jws, jwe, errors
+        from joserfc.rfc7518 import jwe_algs, derive_key, jwe_zips
+        from joserfc.rfc7518.ec_key import ECKey, ECBinding
+        from joserfc.rfc8037.okp_key import OKPKey, OKPBinding
+        from cryptography.hazmat.primitives.keywrap import InvalidUnwrap
+        import binascii
+        R = self
+
+        class JsonShim:
+            def __getattr__(self_, n):
+                return getattr(_json, n)
+
+            def loads(self_, *a, **k):
+                r = call(_json.loads, *a, **k)
+                R.rec("json.loads", r)
+                if r[0] == "err":
+                    raise r[1]
+                return r[1]
+        self.patch(joserfc.util, "json", JsonShim())
+        self.patch(joserfc.jwt, "json", JsonShim())
+
+        def wrap_method(obj, attr, name, classify):
+            orig = getattr(obj, attr)
+
+            def w(*a, **k):
+                r = call(orig, *a, **k)
+                c = classify(r, a)
+                if c is not None:
+                    R.rec(name, c[0], c[1] if len(c) > 1 else None)
+                if r[0] == "err":
+                    raise r[1]
+                return r[1]
+            self.patch(obj, attr, w)
+        for a in jws.JWSRegistry.algorithms.values():
+            wrap_method(a, "verify", "alg.verify", lambda r, a_: (r,))
+        for m in jwe.JWERegistry.algorithms["enc"].values():
+            wrap_method(m, "decrypt", "enc.decrypt", lambda r, a_: (r,))
+        for z in jwe.JWERegistry.algorithms["zip"].values():
+            wrap_method(z, "decompress", "zlib", lambda r, a_: (raw_inflate(a_[0]),))
+
+        def rsa_cls(r, a_):
+            if r[0] == "ok" or isinstance(r[1], errors.DecodeError):
+                return (r,)
+            e = r[1]
+            if isinstance(e, ValueError) and S.innermost(e)[0].endswith("jwe_algs.decrypt_cek"):
+                return (r,)
+            return None
+
+        def gcm_cls(r, a_):
+            if r[0] == "ok" or isinstance(r[1], errors.DecodeError):
+                return (r,)
+            e = r[1]
+            if isinstance(e, ValueError) and not isinstance(e, (binascii.Error, UnicodeError)) and S.innermost(e)[0].endswith("jwe_algs.decrypt_cek"):
+                return (r,)
+            return None
+        for m in jwe.JWERegistry.algorithms["alg"].values():
+            if isinstance(m, jwe_algs.RSAAlgModel):
+                wrap_method(m, "decrypt_cek", "rsa.decrypt", rsa_cls)
+            elif isinstance(m, jwe_algs.AESGCMAlgModel):
+                wrap_method(m, "decrypt_cek", "gcm.unwrap", gcm_cls)
+        orig_unwrap = jwe_algs.aes_key_unwrap
+
+        def unwrap(*a, **k):
+            r = call(orig_unwrap, *a, **k)
+            R.rec("aes_key_unwrap", ("err", errors.DecodeError("unwrap")) if r[0] == "err" and isinstance(r[1], InvalidUnwrap) else r)
+            if r[0] == "err":
+                raise r[1]
+            return r[1]
+        self.patch(jwe_algs, "aes_key_unwrap", unwrap)
+
+        def kdf_shim(orig, name):
+            def make(*a, **k):
+                c = call(orig, *a, **k)
+                if c[0] == "err":
+                    R.rec(name, c)
+                    raise c[1]
+
+                class Proxy:
+                    def derive(self_, key):
+                        r = call(c[1].derive, key)
+                        R.rec(name, r)
+                        if r[0] == "err":
+                            raise r[1]
+                        return r[1]
+                return Proxy()
+            return make
+        self.patch(jwe_algs, "PBKDF2HMAC", kdf_shim(jwe_algs.PBKDF2HMAC, "pbkdf2"))
+        self.patch(derive_key, "ConcatKDFHash", kdf_shim(derive_key.ConcatKDFHash, "concat_kdf"))
+
+        def imp_cls(r, a_):
+            if r[0] == "ok":
+                return (("ok", None),)
+            e = r[1]
+            if isinstance(e, KeyError) or (isinstance(e, ValueError) and str(e).startswith("Invalid crv value")):
+                return None
+            return (r,)
+        for B, kind in ((ECBinding, classmethod), (OKPBinding, staticmethod)):
+            for attr in ("import_public_key", "import_private_key"):
+                orig = getattr(B, attr)
+
+                def w(*a, _orig=orig, **k):
+                    obj = a[-1]
+                    r = call(_orig, obj)
+                    c = imp_cls(r, a)
+                    if c is not None:
+                        R.rec("import_epk", c[0])
+                    if r[0] == "err":
+                        raise r[1]
+                    return r[1]
+                had = attr in B.__dict__
+                old = B.__dict__.get(attr)
+                setattr(B, attr, kind(w) if kind is staticmethod else classmethod(lambda cls, obj, _w=w: _w(obj)))
+                self.undo.append((B, attr, had, old))
+        for K in (ECKey, OKPKey):
+            orig = K.__dict__["exchange_derive_key"]
+
+            def w(self_, key, _orig=orig):
+                r = call(_orig, self_, key)
+                if r[0] == "ok" or isinstance(r[1], ValueError):
+                    R.rec("ecdh", r, "ecdh_epk" if key.kid is None else "ecdh_sender")
+                if r[0] == "err":
+                    raise r[1]
+                return r[1]
+            self.undo.append((K, "exchange_derive_key", True, orig))
+            setattr(K, "exchange_derive_key", w)
+        return self
+
+    def __exit__(self, *a):
+        for obj, attr, had, old in reversed(self.undo):
+            if had:
+                setattr(obj, attr, old)
+            else:
+                try:
+                    delattr(obj, attr)
+                except AttributeError:
+                    pass
+        self.undo = []
+
+
+def c_recorded(rec):
+    """the `recorded` term, or None when a primitive was called more than once"""
+    def one(key, okf):
+        l = rec.calls.get(key, [])
+        if len(l) > 1:
+            raise ValueError(key)
+        return c_res(l[0], okf) if l else "unreached"
+    try:
+        return ("{| rp_verify := %s; rp_enc := %s; rp_inflate := %s; rp_rsa := %s; rp_aes := %s; rp_gcm := %s; rp_pbkdf2 := %s; "
+                "rp_import := %s; rp_ecdh_epk := %s; rp_ecdh_sender := %s; rp_kdf := %s |}" % (
+                    one("alg.verify", c_bool), one("enc.decrypt", c_hex), one("zlib", c_hex), one("rsa.decrypt", c_hex),
+                    one("aes_key_unwrap", c_hex), one("gcm.unwrap", c_hex), one("pbkdf2", c_hex), one("import_epk", c_unit),
+                    one("ecdh_epk", c_hex), one("ecdh_sender", c_hex), one("concat_kdf", c_hex)))
+    except ValueError:
+        return None
+
+
+def jwe_entry_cases(ctx, calls, dist, rec):
+    from joserfc import util
+    rng = ctx.rng
+    cases, meta = [], []
+    eid = {"jwe.decrypt_compact": 0, "jwt.decode/jwe": 1, "jwe.decrypt_json": 2}
+    cand = [c for c in calls if c[0] in eid and len(json.dumps(S.enc_value(c[1]))) < 4000]
+    rng.shuffle(cand)
+    per_tag = collections.Counter()
+    picked = []
+    cap = ctx.scale(70, 700)
+    for c in cand:
+        if per_tag[c[4]] < cap:
+            per_tag[c[4]] += 1
+            picked.append(c)
+    picked = picked[: ctx.scale(1600, 25000)]
+    skipped = 0
+    for (entry, value, keyname, reg, tag) in picked:
+        rec.reset()
+        r = call(S.call_entry, entry, value, keyname, reg)
+        rt = c_recorded(rec)
+        if rt is None:
+            skipped += 1
+            continue
+        tbl, good = [], True
+        raws = []
+        if entry == "jwe.decrypt_json":
+            p0 = value.get("protected")
+            d = call(lambda: util.urlsafe_b64decode(util.to_bytes(p0, "ascii")))
+            if d[0] == "ok":
+                raws.append(d[1])
+        else:
+            try:
+                vb = value if isinstance(value, bytes) else value.encode("utf-8")
+                parts = vb.split(b".")
+                if len(parts) == 5:
+                    d = call(util.urlsafe_b64decode, parts[0])
+                    if d[0] == "ok":
+                        raws.append(d[1])
+            except UnicodeEncodeError:
+                pass
+        if entry == "jwt.decode/jwe":
+            for k in ("zlib", "enc.decrypt"):
+                l = rec.calls.get(k, [])
+                if l and l[0][0] == "ok":
+                    raws.append(l[0][1])
+                    break
+        for raw in raws:
+            j = json_outcome(raw)
+            if j is None:
+                good = False
+                break
+            tbl.append("(%s, %s)" % (c_hex(raw), j))
+        if not good:
+            continue
+        if entry == "jwe.decrypt_json" and not renderable(value):
+            continue
+        strict = reg != "lax"
+        allowed = [] if reg == "default" else S.JWE_ALL
+        va = reg != "any1"
+        vt = "(CBytes (hex \"\"))" if entry == "jwe.decrypt_json" else c_cinput(value)
+        dt = c_pv(value) if entry == "jwe.decrypt_json" else "PNone"
+        term = "EJwe %s %s %s %s %s %s %s %s %s %s %s" % (c_N(eid[entry]), c_bool(strict), c_bool(va), c_strlist(allowed), c_keyarg(keyname),
+                                                       c_sender(keyname) if entry != "jwt.decode/jwe" else "SNone", vt, dt, c_list(tbl), rt, c_res(r, c_unit))
+        if len(term) > 30000:
+            continue
+        cases.append(term); meta.append(("EJwe", entry, keyname, reg, tag, S.enc_value(value)))
+        dist["entry:" + entry] = dist.get("entry:" + entry, 0) + 1
+        ctx.note_case(("EJwe", entry, keyname, reg, repr(value)[:300]))
+    dist["entry:jwe skipped (a primitive was called twice)"] = skipped
     return cases, meta
 
 
@@ -403,11 +737,30 @@ def run(ctx):
     ok, log = ctx.prove(extra_targets=["model/C16Cases.vo"])
     dist = {}
     t0 = time.time()
-    calls, escapes = run_streams(ctx, dist)
-    t1 = time.time()
+    S.ensure_drafts()
+    with PrimRecorder() as rec:
+        calls, escapes = run_streams(ctx, dist)
+        t1 = time.time()
+        jcases, jmeta = jwe_entry_cases(ctx, calls, dist, rec)
     cases, meta = function_cases(ctx, dist)
     ecases, emeta = entry_cases(ctx, calls, dist)
-    cases += ecases; meta += emeta
+    cases += ecases + jcases; meta += emeta + jmeta
+    # classes observed at each primitive of the implementation, checked against contract_classes (props/C16.v)
+    observed = {n: sorted(v) for n, v in rec.seen.items()}
+    ctx.coverage["primitive_classes_observed"] = observed
+    for n, classes in observed.items():
+        for c in classes:
+            cases.append("CContract %s %s" % (c_string(n), c_exn(c))); meta.append(("CContract", n, c))
+    # every registered algorithm row was fed with tokens produced by the library itself
+    ctx.coverage["library_token_rows"] = dict(S.LAST_COVERAGE)
+    gaps = [k for k, v in S.LAST_COVERAGE.items() if k.startswith(("jws:", "jwe-alg:", "jwe-enc:")) and not (isinstance(v, int) and v > 0)]
+    from joserfc import jws as _jws, jwe as _jwe
+    rows = ["jws:" + a for a in _jws.JWSRegistry.algorithms] + ["jwe-alg:" + a for a in _jwe.JWERegistry.algorithms["alg"]] + \
+        ["jwe-enc:" + a for a in _jwe.JWERegistry.algorithms["enc"]]
+    gaps += [r for r in rows if r not in S.LAST_COVERAGE]
+    if gaps:
+        ctx.violation({"kind": "generator-coverage"}, "no library-produced token for the registered rows %s" % gaps,
+                      {"rows": gaps, "no_failing_input_found": True, "broken": "harness generator coverage"})
     cases.append("CGuards"); meta.append(("CGuards",))
     t2 = time.time()
     ctx.coverage["input_distribution"] = dist
@@ -424,6 +777,14 @@ def run(ctx):
     t3 = time.time()
     res = run_eval(ev, cases)
     ctx.sample({"secs_prove": round(t0 - ctx.t0, 1), "secs_coq_eval": round(time.time() - t3, 1)})
+    # how many of the JWE end-to-end cases were really compared (not declined / unreached)
+    ej = [c for c, m in zip(cases, meta) if m[0] == "EJwe"]
+    if ctx.quick:
+        ej = ej[:: max(1, len(ej) // 400)]        # a sample in the quick tier
+    ev2 = lib.CoqEval(["From Model Require Import Base PyVal TableTypes C16Model C16Cases."], "c16case", "c16_compared", None,
+                      shard=300, max_chars=90000)
+    res2 = run_eval(ev2, ej)
+    ctx.coverage["jwe_end_to_end"] = {"cases": len(ej), "not_compared": len(res2["failing"]), "eval_errors": len(res2["errors"])}
     ctx.coverage["traces_validated_against_impl"] = res["evaluated"]
     ctx.coverage["disagreements_checked"] = len(res["failing"])
     direct = len(ctx.violations) + len(ctx.known_hits)
@@ -436,11 +797,16 @@ def run(ctx):
                           "the tree under test lacks a guard the C16 theorems need (probed flags, order of guards_list: %s)" % flags,
                           {"flags": flags, "no_failing_input_found": direct == 0, "broken": "hypothesis needs_* of props/C16.v"})
             continue
-        key = (m[0], m[1] if m[0] == "EJws" else None)
+        if m[0] == "CContract":
+            ctx.violation({"kind": "contract-class", "primitive": m[1], "class": m[2]},
+                          "primitive %s of the implementation raised %s, which its contract (contract_classes, props/C16.v) does not allow" % (m[1], m[2]),
+                          {"primitive": m[1], "class": m[2], "no_failing_input_found": direct == 0, "broken": "hypothesis prims_ok"})
+            continue
+        key = (m[0], m[1] if m[0] in ("EJws", "EJwe") else None)
         if key in seen_fn:
             continue
         seen_fn.add(key)
-        ctx.violation({"kind": "correspondence", "fn": m[0] if m[0] != "EJws" else "EJws:" + m[1]},
+        ctx.violation({"kind": "correspondence", "fn": m[0] if m[0] not in ("EJws", "EJwe") else m[0] + ":" + m[1]},
                       "model and implementation disagree on %s%s" % (m[0], repr(m[1:])[:300]),
                       {"case": cases[i][:4000], "meta": repr(m)[:2000], "no_failing_input_found": direct == 0,
                        "broken": "correspondence model/C16Cases.v:c16_check vs joserfc"})
@@ -455,7 +821,7 @@ def run(ctx):
         "exception contract of the primitives (prims_ok in proofs/C16Refuted.v): json.loads raises ValueError or RecursionError only; alg.verify / enc.decrypt / key unwrap / key import / ECDH / KDF raise JoseError or ValueError only when called with a key of the algorithm's type (EdDSA: an Ed* curve) and, for PBKDF2, a count in 1..2^31-1; zlib raises zlib.error or the size error; validated only by the direct search on the implementation",
         "the Python semantics kernel of coq/model/PyVal.v (in, [], .get, iteration, truthiness, ==) and to_bytes/dict.update are hand transcriptions validated by the differential run only; dict.update with a list of pairs and to_bytes(float) are declined by the model (not compared)",
         "PBES2 counts in (100000, 2^31) are not executed (they run for minutes to hours); inputs above 100 kB are not generated",
-        "JWE entry points are compared with the model at function level only (header handling, algorithm lookup, embedded key validation); their composition is covered by the proof and by the direct oracle",
+        "JWE entry points are compared end to end (EJwe) with the primitives' results recorded from the real run when every primitive is called at most once; a model run that needs a primitive the real run did not reach is not compared (counted as declined by the model)",
     ]
     if not ctx.quick:
         ctx.coqchk()
